@@ -3,12 +3,14 @@ from vlib import gen_tree
 from vlib.scn import Scenario, h
 from checks import trees
 from checks.outparse import parse_raws
+from gen import extract_facts
+generate_facts = extract_facts.generate
 
 ID = "C01"
-LEAN_MODULES = ["Econf.Props.C01"]
+LEAN_MODULES = ["Econf.Props.C01", "Econf.Props.Tie"]
 THEOREMS = ["Econf.C01_lookup", "Econf.C01_masked_ignored", "Econf.C01_main_skip_absent", "Econf.C01_main_first_present",
             "Econf.C01_main_candidates", "Econf.C01_layer_order", "Econf.C01_dir_order", "Econf.C01_nofile", "Econf.C01_null_refused",
-            "Econf.sortNames_sorted", "Econf.sortNames_perm"]
+            "Econf.sortNames_sorted", "Econf.sortNames_perm", "Econf.Struct.tie_macros"]
 SHRINK = False
 RULE = ("random trees: per layer main file in {absent, regular, empty, link to /dev/null} and drop-in directories with names drawn from "
         "a pool with non-numeric byte order, dot files, names without the suffix, sub-directories, same and different names across layers, "
